@@ -159,7 +159,7 @@ example : treeReadable .expanded
     tree `c` comes back.  So `serialize st cs (embedTop (readTree (serialize st cs t)))` is in the
     same text class as `serialize st cs t`: both read as `canonTop st t`.
     Guards: `treeReadable st t`; `embedOk (canonTop st t)` (every canonical text is flat, already
-    squeezed, without raw newline and starts with a non-blank character other than `/`; a block that
+    normalised, without raw newline and starts with a non-blank character other than `/`; a block that
     is not an at-rule has a visible child — a style rule whose only children are dropped comments is
     printed as `a{}` by the compressed serializer but an empty rule is invisible; declarations have a
     name and a value; comments are single `/*! … */` tokens that `commentOut · 0` leaves unchanged);
